@@ -26,6 +26,12 @@ func (t DataType) Bytes(endian binary.ByteOrder, value interface{}, length int64
 		return bs, nil
 	}
 
+	// GoValue represents a NULL money or decimal value as a Decimal
+	// without a value - encode it as NULL again.
+	if dec, ok := value.(*Decimal); ok && (dec == nil || dec.i == nil) {
+		return []byte{}, nil
+	}
+
 	switch t {
 	case MONEY, SHORTMONEY, MONEYN:
 		dec, ok := value.(*Decimal)
